@@ -22,7 +22,7 @@ ustr gen_string(Rng &r, const GenCfg &c) {
     ustr s;
     if (c.boundary_bias && r.chance(1, 3)) {
         // writer decision boundaries: line lengths around 2048, semicolon runs, trailing backslashes / blanks, text delimiters
-        unsigned shape = (unsigned) r.below(23);
+        unsigned shape = (unsigned) r.below(25);
         size_t n = 2036 + r.below(24);
         auto fill = [&](size_t k, bool spaces) { for (size_t i = 0; i < k; ++i) s += (spaces && r.chance(1, 9)) ? u' ' : (char16_t) ('a' + (i % 26)); };
         switch (shape) {
@@ -51,6 +51,9 @@ ustr gen_string(Rng &r, const GenCfg &c) {
             case 19: s += U("a'''\"\"\"\n;b\n"); fill(2040 + r.below(12), true); if (r.chance(1, 3)) { s += U("\n"); fill(r.below(9), false); } break;
             case 20: fill(2040 + r.below(12), true); s += U("\n;'''x\"\"\""); break;
             case 21: s += U("'''\"\"\"\n"); fill(2040 + r.below(12), false); s += U("\n;"); break;
+            // one-line values that hold one triple-quote kind and end in the other quote character (the choice between ''' and """ delimiters)
+            case 22: fill(r.below(8), true); s += U("'''"); fill(r.below(8), true); s += U("\""); break;
+            case 23: fill(r.below(8), true); s += U("\"\"\""); fill(r.below(8), true); s += U("'"); break;
             default: fill(r.below(12), false); s += U("\n"); fill(n + 20, true); s += U("\n"); fill(r.below(8), false); s += U("\\"); if (r.chance(1, 2)) s += U("\t"); break;
         }
         if (c.cif11_chars_only) for (auto &ch : s) if (ch > 0x7e) ch = u'z';
